@@ -309,3 +309,67 @@ fn t2_single_single() {
 fn t2_hb_single_single() {
     run2([B_SINGLE, B_SINGLE], [1, 1], 2, 2, true);
 }
+
+// @verif family=TBMC hook=1 inrepo=replay quick=C05,C04 thorough=C01,C09 timeout=1500 mem=16
+// @bounds kind=ConIterOfIter<usize,TProbe> len<=1; thread 0: 2 x next_id_and_value(), thread 1: 1 x next_id_and_value() (pulls after the end was reported); <=7 events per thread + solo continuation; all interleavings
+#[kani::proof]
+#[kani::unwind(12)]
+fn t2_single2_single() {
+    run2([B_SINGLE, B_SINGLE], [2, 1], 1, 2, false);
+}
+
+// @verif family=TBMC hook=1 inrepo=replay quick=C06 thorough=C01,C09 timeout=1500 mem=16
+// @bounds kind=ConIterOfIter<usize,TProbe> len<=2; thread 0: skip_to_end then has_more/try_get_len, thread 1: 2 x next_id_and_value(); <=7 events per thread + solo continuation; all interleavings
+#[kani::proof]
+#[kani::unwind(12)]
+fn t2_skip_single() {
+    run2([B_SKIP | B_LEN, B_SINGLE], [2, 2], 2, 2, false);
+}
+
+// @verif family=TBMC hook=1 inrepo=replay quick=C11 thorough=C05 timeout=1500 mem=16
+// @bounds kind=ConIterOfIter<usize,TProbe> len<=2, all size hints; thread 0: 2 x has_more/try_get_len, thread 1: 2 x next_id_and_value(); <=7 events per thread + solo continuation; all interleavings
+#[kani::proof]
+#[kani::unwind(12)]
+fn t2_len_single() {
+    run2([B_LEN, B_SINGLE], [2, 2], 2, 2, false);
+}
+
+// @verif family=TBMC hook=1 inrepo=replay quick=C03 thorough=C01,C02,C04,C09 timeout=1800 mem=16
+// @bounds kind=ConIterOfIter<usize,TProbe> len<=2; thread 0: buffered_iter(2).next(), thread 1: next_id_and_value(); <=7 events per thread + solo continuation; all interleavings
+#[kani::proof]
+#[kani::unwind(12)]
+fn t2_buf_single() {
+    run2([B_BUF, B_SINGLE], [1, 1], 2, 2, false);
+}
+
+// @verif family=TBMC hook=1 inrepo=replay thorough=C03,C01,C02,C04,C09 timeout=2400 mem=16
+// @bounds kind=ConIterOfIter<usize,TProbe> len<=2; thread 0: next_id_and_value(), thread 1: buffered_iter(2).next() (the chunk pull is the last thread: hang detection applies to it); <=7 events per thread + solo; all interleavings
+#[kani::proof]
+#[kani::unwind(12)]
+fn t2_single_buf() {
+    run2([B_SINGLE, B_BUF], [1, 1], 2, 2, false);
+}
+
+// @verif family=TBMC hook=1 inrepo=replay thorough=C03,C01,C02,C04,C09 timeout=2400 mem=16
+// @bounds kind=ConIterOfIter<usize,TProbe> len<=2; thread 0: next_chunk(n<=2) (allocates), thread 1: next_id_and_value(); <=7 events per thread + solo; all interleavings
+#[kani::proof]
+#[kani::unwind(12)]
+fn t2_chunk_single() {
+    run2([B_CHUNK, B_SINGLE], [1, 1], 2, 2, false);
+}
+
+// @verif family=TBMC hook=1 inrepo=replay thorough=C07 timeout=2400 mem=16
+// @bounds kind=ConIterOfIter<usize,TProbe> len<=2; thread 0: buffered_iter(2).next(), thread 1: next_id_and_value(); happens-before and exclusivity (a chunk pull uses the iterator several times inside one critical section); <=7 events per thread + solo
+#[kani::proof]
+#[kani::unwind(12)]
+fn t2_hb_buf_single() {
+    run2([B_BUF, B_SINGLE], [1, 1], 2, 2, true);
+}
+
+// @verif family=TBMC hook=1 inrepo=replay thorough=C07 timeout=2400 mem=16
+// @bounds kind=ConIterOfIter<usize,TProbe> len<=2; thread 0: next_id_and_value(), thread 1: buffered_iter(2).next(); happens-before and exclusivity; <=7 events per thread + solo
+#[kani::proof]
+#[kani::unwind(12)]
+fn t2_hb_single_buf() {
+    run2([B_SINGLE, B_BUF], [1, 1], 2, 2, true);
+}
